@@ -315,6 +315,8 @@ impl Task {
     }
 
     pub fn set_state(&self, state: TaskState) {
+        #[cfg(feature = "verif")]
+        let verif_old = self.state();
         if state.is_completed() {
             self.set_end_time(utils::time::time_millis());
 
@@ -330,6 +332,8 @@ impl Task {
         if state != TaskState::Error {
             *self.err.write().unwrap() = None;
         }
+        #[cfg(feature = "verif")]
+        crate::verif::on_task_state(self, &verif_old, "set_state");
     }
 
     pub fn set_err(&self, err: &Error) {
@@ -346,7 +350,11 @@ impl Task {
     }
 
     pub fn set_pure_state(&self, state: TaskState) {
+        #[cfg(feature = "verif")]
+        let verif_old = self.state();
         *self.state.write().unwrap() = state;
+        #[cfg(feature = "verif")]
+        crate::verif::on_task_state(self, &verif_old, "set_pure_state");
     }
 
     pub fn set_start_time(&self, time: i64) {
